@@ -88,7 +88,7 @@ def main(argv=None):
         return 3
     tier = a.tier
     timeout_ms = int(os.environ.get("PYVC_TIMEOUT_MS", "20000" if tier == "quick" else "120000"))
-    names = [n for n, i in harness.TASKS.items() if i["prop"] == a.prop and (tier == "thorough" or i["tier"] == "quick")]
+    names = [n for n, i in harness.TASKS.items() if i["prop"] == a.prop and ((tier == "thorough" and i["tier"] in ("quick", "thorough")) or i["tier"] == "quick")]
     if a.only:
         names = [n for n in names if a.only in n]
     if not names:
